@@ -252,6 +252,8 @@ def run_real(case: dict):
             for ax, c in zip(axes, pos):
                 cols[ax].append(float(c))
         df = pd.DataFrame(cols)
+        if not case["rows"]:
+            df = pd.DataFrame({k: pd.Series([], dtype=(float if k in axes else int)) for k in cols})
         if case.get("tif_folder"):
             # the segmentation given as a PATH: a folder of per-frame TIFFs, frame numbers not
             # zero-padded (frame_0.tif … frame_11.tif)
@@ -694,6 +696,8 @@ def gen_relabel(rng: random.Random, public: bool, illformed: bool = False) -> di
     listed = [d for d in dets if rng.random() < rng.choice([1.0, 0.8, 0.5])]
     if public and not listed:
         listed = [rng.choice(dets)]
+    if public and rng.random() < 0.04:
+        listed = []   # a node table without rows (everything filtered out): nothing but background comes back
     if not public and shape[0] and rng.random() < 0.1:
         ghost = (rng.randrange(shape[0]), rng.randint(6, 50))
         if ghost not in dets:
